@@ -641,6 +641,10 @@ def run_c09(ctx):
     """partial reap: finished batches exact, everything else missing, nothing deleted"""
     from xyzpy.gen.cropping import XYZError
 
+    # every fourth run: the partial reap races with a process that is still growing
+    if (ctx.params.get("run_index") or 0) % 4 == 3:
+        return run_c09_race(ctx)
+
     kinds = [("scalar", 5), ("tuple2", 2), ("array", 2), ("bool", 1), ("str", 1),
              ("dict", 1), ("int", 1)]
     m = CropMachine(ctx, kinds=kinds, max_n=30, max_batches=7)
@@ -804,3 +808,179 @@ def check_sample_rows(df, kwargs_list, kind, hidden, what, finished_idx=None, ap
                                 args, "outputs " + short(outs, 80) if fin else "missing outputs"))
         used[hit] = True
 
+
+
+# ------------------------------------------------- C09, racing partial reap
+
+
+def run_c09_race(ctx):
+    """A partial reap (allow_incomplete=True, default clean-up) while another
+    process is still growing: every batch is reported either exactly or as
+    missing, nothing is deleted, growing can continue and a later full reap is
+    exact - also when the crop becomes complete *during* the reap."""
+    import xyzpy
+    from xyzpy.gen.cropping import grow as xgrow
+    from ..sched import Scheduler
+    from ..model import same, is_missing, walk_nested, ShapeMismatch
+
+    t = ctx.tape
+    role = t.weighted([(None, 2), ("runner", 1), ("harvester", 2), ("sampler", 1)], "role")
+    if role == "sampler":
+        kinds = [("scalar", 2), ("tuple2", 1)]
+    elif role:
+        kinds = [("scalar", 3), ("tuple2", 1), ("array", 1), ("int", 1)]
+    else:
+        kinds = [("scalar", 3), ("tuple2", 1), ("array", 1), ("str", 1)]
+    m = CropMachine(ctx, kinds=kinds, max_n=16, max_batches=5,
+                    farmer_roles=[role] if role else None, allow_cases=(role != "sampler"),
+                    ext_choice=False,
+                    world_cfg={"max_steps": 40000,
+                               "op_cost": t.pick([0.001, 0.02], "op-cost")})
+    w = m.w
+    sw = m.sc.sweep
+    kind = m.sc.kind
+    if role == "sampler":
+        m.sow_samples(t.int_between(2, 8, "nsamples"))
+    else:
+        m.sow()
+    allb = sorted(m.batches)
+    ctx.t("racing partial reap; farmer", role)
+    if m.B < 2:
+        m.grow_op(how="grow_missing")
+        m.reap()
+        return
+    nfirst = t.int_between(1, m.B - 1, "nfirst")
+    order = t.perm(allb, "first")
+    first = sorted(order[:nfirst])
+    rest = order[nfirst:]
+    late = sorted(rest[: t.int_between(1, len(rest), "nlate")])
+    m.grow_op(ids=first, how="crop_grow")
+    before = G.snapshot_tree(m.location)
+    ctx.t("reap(allow_incomplete=True) races with a grower of", late, "(finished before:", first, ")")
+    sched = Scheduler(w, policy=t.pick(["uniform", "pct", "conflict"], "policy"),
+                      stay=t.pick([1, 2, 4], "stay"))
+
+    def reaper():
+        c = m.load_crop()
+        return c, c.reap(allow_incomplete=True)
+
+    def grower():
+        c = m.load_crop()
+        for b in late:
+            xgrow(b, c, verbosity=0)
+
+    ra = sched.spawn("reaper", reaper)
+    ga = sched.spawn("grower-late", grower)
+    sched.run()
+    if w.aborting:
+        raise HarnessError("racing partial reap hit the step cap")
+    if ga.exc is not None:
+        raise Violation("late-grower-raised", "{}: {}".format(type(ga.exc).__name__, ga.exc),
+                        site=xyz_site(ga.exc))
+    if ra.exc is not None:
+        raise Violation("racing-partial-reap-raised", "{}: {}".format(
+            type(ra.exc).__name__, short(str(ra.exc), 200)), site=xyz_site(ra.exc))
+    crop, res = ra.result
+    # ---- per position: exact / missing / wrong
+    consts = set(sw.constants)
+    status = {}  # batch -> set of statuses of its positions
+    if role == "sampler":
+        rows = [dict(r) for _, r in res.iterrows()]
+        if len(rows) != len(m.sample_kwargs):
+            raise Violation("racing-partial-reap/row-count", "{} rows for {} samples".format(
+                len(rows), len(m.sample_kwargs)))
+        pos = 0
+        for b in allb:
+            for kw in m.batches[b]:
+                outs = outputs_of(kind, calllog.value(kind, kw))
+                r = rows[pos]
+                pos += 1
+                if all(same(r.get(o), v) for o, v in outs.items()):
+                    st = "exact"
+                elif all(is_missing(r.get(o)) for o in outs):
+                    st = "missing"
+                else:
+                    st = "wrong: " + short({o: r.get(o) for o in outs}, 80)
+                status.setdefault(b, set()).add(st)
+    else:
+        exp = sw.expected()
+        batch_of = {G.loc_of(kw, consts): b for b, kws in m.batches.items() for kw in kws}
+        if role is None:
+            try:
+                got = dict(walk_nested(res, sw.axes(m.sort_combos)))
+            except ShapeMismatch as e:
+                raise Violation("racing-partial-reap/shape", str(e))
+            for loc, ev in exp.items():
+                gv = got.get(loc)
+                st = "exact" if same(gv, ev) else ("missing" if is_missing(gv) else
+                                                   "wrong: " + short(gv, 60))
+                status.setdefault(batch_of[loc], set()).add(st)
+            for loc, gv in got.items():
+                if loc not in exp and not is_missing(gv):
+                    raise Violation("racing-partial-reap/not-missing",
+                                    "un-requested position {} holds {}".format(dict(loc), short(gv, 60)))
+        else:
+            for loc, ev in exp.items():
+                point = res.sel(**dict(loc))
+                outs = outputs_of(kind, ev)
+                vals = {}
+                for var in outs:
+                    gv = point[var].values
+                    vals[var] = gv.item() if gv.ndim == 0 else gv
+                if all(same(vals[o], outs[o]) for o in outs):
+                    st = "exact"
+                elif all(is_missing(vals[o]) for o in outs):
+                    st = "missing"
+                else:
+                    st = "wrong: " + short(vals, 80)
+                status.setdefault(batch_of[loc], set()).add(st)
+    for b in allb:
+        sts = status.get(b, set())
+        if len(sts) != 1 or next(iter(sts)).startswith("wrong"):
+            raise Violation("racing-partial-reap/batch-torn",
+                            "batch {} is reported as {} (must be wholly exact or wholly "
+                            "missing)".format(b, sorted(sts)))
+        st = next(iter(sts))
+        if b in first and st != "exact":
+            raise Violation("racing-partial-reap/finished-batch-missing",
+                            "batch {} was finished before the reap began but is reported missing".format(b))
+        if b not in first and b not in late and st != "missing":
+            raise Violation("racing-partial-reap/ungrown-batch-present",
+                            "batch {} was never grown but is reported {}".format(b, st))
+    seen_late = sorted(b for b in late if status[b] == {"exact"})
+    ctx.stats["late-batches-seen-by-reap"] += len(seen_late)
+    ctx.stats["late-batches-missed-by-reap"] += len(late) - len(seen_late)
+    if set(first) | set(late) == set(allb):
+        w.probes["crop-became-complete-during-partial-reap"] += 1
+    # ---- nothing deleted: growing can continue
+    after = G.snapshot_tree(m.location)
+    if after is None:
+        raise Violation("racing-partial-reap/crop-deleted",
+                        "the crop directory is gone after a default allow_incomplete reap "
+                        "(reported missing: {})".format(
+                            sorted(b for b in allb if status[b] == {"missing"})))
+    created, removed, modified = G.diff_trees(before, after)
+    ok_new = {"results/xyz-result-{}.jbdmp".format(b) for b in late}
+    if removed or modified or set(created) - ok_new:
+        raise Violation("racing-partial-reap/crop-changed",
+                        "removed {} modified {} unexpectedly created {}".format(
+                            removed[:5], modified[:5], sorted(set(created) - ok_new)[:5]))
+    # ---- and a later full reap is exact
+    m.grow_op(how="grow_missing")
+    (c2, full), _ = m.call("reaper", lambda: (lambda c: (c, c.reap()))(m.load_crop()),
+                           oracle="final-reap-raised")
+    if role is None:
+        bad = compare_nested(full, sw, m.sort_combos)
+        if bad is not None:
+            raise Violation("final-reap-differs/" + bad[0], bad[1])
+    elif role in ("runner", "harvester"):
+        check_dataset(full, sw, m.sort_combos, None, kind, "final-reap-differs")
+        if role == "harvester":
+            disk, _ = m.call("fresh-reader", lambda: xyzpy.load_ds(
+                m.fspec.data_name, engine=m.fspec.engine), oracle="load-raised")
+            check_dataset(disk, sw, m.sort_combos, None, kind, "harvested-after-partial-then-full")
+    else:
+        hidden = set(m.fspec.resources) | set(m.sow_constants())
+        check_sample_rows(full, m.sample_kwargs, kind, hidden, "final-reap-differs")
+    ctx.nontrivial = True
+    ctx.key = repr(("race", role, m.sc.N, m.B, kind, first, late, seen_late))
